@@ -224,7 +224,12 @@ impl ServerMetaContextOutput {
         let mut first_chunk = stream.next().await.unwrap_or_default();
 
         // create <title> tag
-        let title = self.title.as_string();
+        // the title is text (`<title>` is an RCDATA element): it has to be escaped like any
+        // other text node, or a `</title>` or `&lt;` inside it changes the document
+        let title = self
+            .title
+            .as_string()
+            .map(|title| html_escape::encode_text(&title).into_owned());
         let title_len = title
             .as_ref()
             .map(|n| "<title>".len() + n.len() + "</title>".len())
